@@ -174,7 +174,7 @@ def encode_sequential(rng, stats, nmsgs, cs_changes=True, max_len=700):
         bump(stats, "aliasing_csid_sets")
     for (typ, msid, ts, data) in gen_messages(rng, nmsgs, max_len):
         if cs_changes and rng.chance(1, 6):
-            n = rng.choice([1, 2, 3, 64, 127, 128, 129, 200, 4096, 65536, 0x7FFFFFFF, rng.range(1, 500)]) if max_len <= 1000 else rng.choice([128, 4096, 65536, 0x7FFFFFFF, 70000])
+            n = rng.choice([1, 2, 3, 64, 127, 128, 129, 200, 4096, 65536, 0x7FFFFFFF, rng.range(1, 500), 0x1000000, 0x1000001, 0x1000000 + rng.range(2, 200), 0x40000007]) if max_len <= 1000 else rng.choice([128, 4096, 65536, 0x7FFFFFFF, 70000, 0x1000000 + 1000])
             payload = n.to_bytes(4, "big") + (rng.bytes(rng.range(0, 3)) if rng.chance(1, 5) else b"")
             c = 2 if rng.chance(3, 4) else rng.choice(csids)
             t = rng.choice([0, ts])
@@ -188,6 +188,36 @@ def encode_sequential(rng, stats, nmsgs, cs_changes=True, max_len=700):
             out += ch
         s.completed(typ, data)
         expect.append((typ, msid, ts, data))
+    return bytes(out), expect
+
+
+def encode_many_streams(rng, stats):
+    """many chunk streams alive at once (65..100 distinct ids, more than any fixed-size table would hold): every id
+    sends a first message, then - after all the others have sent theirs - further messages whose headers the sender
+    compresses against that id's own history.  Sequential (no chunk of another id inside a message).
+    returns (bytes, expected message list)"""
+    s = Sender(rng, stats)
+    out = bytearray()
+    expect = []
+    n = rng.range(65, 100)
+    csids = []
+    while len(csids) < n:
+        c = pick_csid(rng) if rng.chance(1, 2) else rng.range(2, 200)
+        if c not in csids:
+            csids.append(c)
+    ts0 = {c: rng.choice([0, 1000, 0xFFFFF0, rng.below(M32)]) for c in csids}
+    for rnd in range(rng.range(2, 3)):
+        order = csids if rnd == 0 or rng.chance(1, 2) else list(reversed(csids))
+        for c in order:
+            typ, msid = (8 + (c % 2), 1 + (c % 3))
+            ts = (ts0[c] + 40 * rnd) % M32
+            ln = rng.choice([0, 1, 5, 100, 129, 300]) if rnd == 0 else rng.choice([1, 5, 100, 130])
+            data = bytes(((c * 13 + j * 7 + rnd) & 0xff) for j in range(ln))
+            for ch in s.chunks_of(c, typ, msid, ts, data):
+                out += ch
+            s.completed(typ, data)
+            expect.append((typ, msid, ts, data))
+    bump(stats, "many_stream_cases")
     return bytes(out), expect
 
 
